@@ -1,7 +1,7 @@
 (* Proofs/C11_Body2.v - RINEX 2: satellites of an epoch, epochs of a file, header, whole-file theorem *)
 From Coq Require Import Ascii String List Bool ZArith QArith Arith Lia.
 From Verif Require Import Lib.Text Lib.Decimal Lib.Fixed Lib.Dyadic Model.C11_Rinex Model.C11_Check
-     Spec.C11_RinexFormat Spec.C11_RinexFile Proofs.C11_Rinex Proofs.C11_File3 Proofs.C11_Hdr3 Proofs.C11_Hdr2 Proofs.C11_File2.
+     Spec.C11_RinexFormat Spec.C11_RinexFile Proofs.C11_Rinex Proofs.C11_File3 Proofs.C11_Hdr3 Proofs.C11_Hdr2 Proofs.C11_File2 Proofs.C11_Extras.
 Import ListNotations.
 Local Open Scope nat_scope.
 Local Open Scope string_scope.
@@ -160,38 +160,75 @@ Definition first_text2 (t : epoch_t) : string :=
   time_text (ep_y t) (ep_mo t) (ep_d t) (ep_h t) (ep_mi t) (dec_value (ep_s7 t) 7).
 
 Definition hdr_state2 (f : file2) : st :=
-  {| meta := [("marker_name", MStr (f2_marker f)); ("time_sys", MStr "GPS"); ("time_first_obs", MStr (first_text2 (f2_first f)))];
-     pos := None; types_all := f2_types f; num_types := Some (Z.of_nat (List.length (f2_types f))); sys_types := []; hsys := None;
-     rows := [] |}.
+  {| meta := hmeta (f2_x f) (f2_marker f) (first_text2 (f2_first f)); pos := hpos (f2_x f); types_all := f2_types f;
+     num_types := Some (Z.of_nat (List.length (f2_types f))); sys_types := []; hsys := None; rows := [] |}.
 
 Lemma end_line_ok2 s rest : run_header G2.header_table (end_of_header :: rest) s = Some (s, rest).
 Proof. reflexivity. Qed.
 
 Lemma header2_ok f rest : file2_ok f -> run_header G2.header_table (render_header2 f ++ rest) st0 = Some (hdr_state2 f, rest).
 Proof.
-  intros [Tm [Lm [Tne [_ [Ft [Fn [Wf [_ [Fy [Fs _]]]]]]]]]].
+  intros [Tm [Lm [Tne [_ [Ft [Fn [Wf [_ [Fy [Fs [[X0 [X1 [X2 X3]]] _]]]]]]]]]]].
   assert (Fo : first_ok (f2_first f)) by (split; [exact Wf|split; assumption]).
-  unfold render_header2.
-  replace ((hdr_line (f2_marker f) "MARKER NAME" :: types_lines_v2 (f2_types f) ++ [first_obs_line (f2_first f); end_of_header]) ++ rest)%list
-    with ((hdr_line (f2_marker f) "MARKER NAME" :: types_lines_v2 (f2_types f) ++ [first_obs_line (f2_first f)]) ++ end_of_header :: rest)%list
-    by (cbn [app]; rewrite <- !List.app_assoc; reflexivity).
-  rewrite (run_header_app G2.header_table _ st0 (hdr_state2 f)); [apply end_line_ok2| |].
-  - constructor.
-    + assert (K : label_ok "MARKER NAME") by (split; [discriminate|reflexivity]).
-      rewrite (end_marker_hdr_line _ _ Lm K). reflexivity.
-    + apply Forall_app. split; [apply types_lines_not_end2; assumption|]. constructor; [|constructor].
+  set (Y := ep_y (f2_first f)) in *. set (x := f2_x f) in *.
+  set (s1 := apply_hrecs (hx0 x) st0).
+  set (s2 := set_meta (assoc_set "marker_name" (MStr (f2_marker f)) (meta s1)) s1).
+  set (s3 := apply_hrecs (hx1 x) s2).
+  set (s4 := with_v2 s3 (f2_types f) (Some (Z.of_nat (List.length (f2_types f))))).
+  set (s5 := apply_hrecs (hx2 x) s4).
+  set (s6 := set_meta (assoc_set "time_first_obs" (MStr (first_text2 (f2_first f))) (assoc_set "time_sys" (MStr "GPS") (meta s5))) s5).
+  set (s7 := apply_hrecs (hx3 x) s6).
+  unfold render_header2. fold x.
+  set (ls := (rx (hx0 x) ++ hdr_line (f2_marker f) "MARKER NAME" :: rx (hx1 x) ++ types_lines_v2 (f2_types f)
+              ++ rx (hx2 x) ++ first_obs_line (f2_first f) :: rx (hx3 x))%list).
+  replace ((rx (hx0 x) ++ hdr_line (f2_marker f) "MARKER NAME" :: rx (hx1 x) ++ types_lines_v2 (f2_types f)
+            ++ rx (hx2 x) ++ first_obs_line (f2_first f) :: rx (hx3 x) ++ [end_of_header]) ++ rest)%list
+    with (ls ++ end_of_header :: rest)%list
+    by (unfold ls; repeat (rewrite <- List.app_assoc; cbn [app]); reflexivity).
+  rewrite (run_header_app G2.header_table ls st0 s7).
+  - rewrite end_line_ok2. f_equal. f_equal.
+    destruct (meta_apply_hrecs (hx0 x) st0) as [M1 P1]. fold s1 in M1, P1.
+    destruct (meta_apply_hrecs (hx1 x) s2) as [M3 P3]. fold s3 in M3, P3.
+    destruct (meta_apply_hrecs (hx2 x) s4) as [M5 P5]. fold s5 in M5, P5.
+    destruct (meta_apply_hrecs (hx3 x) s6) as [M7 P7]. fold s7 in M7, P7.
+    destruct (apply_hrecs_fields (hx0 x) st0) as [A1 [B1 [C1 [D1 E1]]]]. fold s1 in A1, B1, C1, D1, E1.
+    destruct (apply_hrecs_fields (hx1 x) s2) as [A3 [B3 [C3 [D3 E3]]]]. fold s3 in A3, B3, C3, D3, E3.
+    destruct (apply_hrecs_fields (hx2 x) s4) as [A5 [B5 [C5 [D5 E5]]]]. fold s5 in A5, B5, C5, D5, E5.
+    destruct (apply_hrecs_fields (hx3 x) s6) as [A7 [B7 [C7 [D7 E7]]]]. fold s7 in A7, B7, C7, D7, E7.
+    apply st_ext.
+    + rewrite M7. unfold s6. cbn [meta set_meta]. rewrite M5. unfold s4. cbn [meta with_v2]. rewrite M3. unfold s2. cbn [meta set_meta].
+      rewrite M1. reflexivity.
+    + rewrite P7. unfold s6. cbn [pos set_meta]. rewrite P5. unfold s4. cbn [pos with_v2]. rewrite P3. unfold s2. cbn [pos set_meta].
+      rewrite P1. reflexivity.
+    + rewrite A7. unfold s6. cbn [types_all set_meta]. rewrite A5. reflexivity.
+    + rewrite B7. unfold s6. cbn [num_types set_meta]. rewrite B5. reflexivity.
+    + rewrite C7. unfold s6. cbn [sys_types set_meta]. rewrite C5. unfold s4. cbn [sys_types with_v2]. rewrite C3. unfold s2.
+      cbn [sys_types set_meta]. rewrite C1. reflexivity.
+    + rewrite D7. unfold s6. cbn [hsys set_meta]. rewrite D5. unfold s4. cbn [hsys with_v2]. rewrite D3. unfold s2.
+      cbn [hsys set_meta]. rewrite D1. reflexivity.
+    + rewrite E7. unfold s6. cbn [rows set_meta]. rewrite E5. unfold s4. cbn [rows with_v2]. rewrite E3. unfold s2. cbn [rows set_meta].
+      rewrite E1. reflexivity.
+  - unfold ls. apply Forall_app. split; [apply (hrecs_not_end Y), X0|]. constructor.
+    + assert (K : label_ok "MARKER NAME") by (split; [discriminate|reflexivity]). rewrite (end_marker_hdr_line _ _ Lm K). reflexivity.
+    + apply Forall_app. split; [apply (hrecs_not_end Y), X1|]. apply Forall_app. split; [apply types_lines_not_end2; assumption|].
+      apply Forall_app. split; [apply (hrecs_not_end Y), X2|]. constructor; [|apply (hrecs_not_end Y), X3].
       assert (K : label_ok "TIME OF FIRST OBS") by (split; [discriminate|reflexivity]).
       unfold first_obs_line. rewrite (end_marker_hdr_line _ _); [reflexivity| |exact K].
       rewrite (len_cat_widths _ _ (first_obs_widths _ Fo)). simpl. lia.
-  - cbn [hfold]. rewrite (marker_line_ok2 _ st0 Tm Lm). cbv beta iota. rewrite hfold_app, (types_lines_ok2 _ _ Tne Ft Fn).
-    cbn [hfold]. rewrite (first_obs_ok _ _ Fo). reflexivity.
+  - unfold ls. rewrite hfold_app. unfold rx. rewrite (hrecs_ok G2.header_table has_extras_G2 Y _ st0 X0). fold s1.
+    cbn [hfold]. rewrite (marker_line_ok2 _ s1 Tm Lm). fold s2. cbv beta iota.
+    rewrite hfold_app, (hrecs_ok G2.header_table has_extras_G2 Y _ s2 X1). fold s3.
+    rewrite hfold_app, (types_lines_ok2 _ s3 Tne Ft Fn). fold s4.
+    rewrite hfold_app, (hrecs_ok G2.header_table has_extras_G2 Y _ s4 X2). fold s5.
+    cbn [hfold]. rewrite (first_obs_ok _ s5 Fo). fold s6. cbv beta iota.
+    apply (hrecs_ok G2.header_table has_extras_G2 Y _ s6 X3).
 Qed.
 
 Definition file_rows2 (rate : option Q) (f : file2) : list row :=
   body_rows2 rate (f2_marker f) (f2_types f) (f2_epochs f).
 
 Definition final_state2 (rate : option Q) (f : file2) : st :=
-  {| meta := meta (hdr_state2 f); pos := None; types_all := f2_types f; num_types := num_types (hdr_state2 f); sys_types := [];
+  {| meta := meta (hdr_state2 f); pos := pos (hdr_state2 f); types_all := f2_types f; num_types := num_types (hdr_state2 f); sys_types := [];
      hsys := None; rows := rev (file_rows2 rate f) |}.
 
 Lemma finish_v2_ext s s' : meta s = meta s' -> pos s = pos s' -> types_all s = types_all s' -> rows s = rows s' ->
@@ -205,11 +242,13 @@ Lemma rinex2_file_roundtrip_l rate f : file2_ok f ->
   parse_v2 spec_q G2.header_table G2.obs_table rate (render_file2 f) = finish_v2 (final_state2 rate f).
 Proof.
   intros Ok. pose proof (header2_ok f (render_body_v2 (f2_epochs f)) Ok) as Hh.
-  destruct Ok as [Tm [Lm [Tne [_ [Ft [Fn [Wf [HY [Fy [Fs Fe]]]]]]]]]].
+  destruct Ok as [Tm [Lm [Tne [_ [Ft [Fn [Wf [HY [Fy [Fs [Xok Fe]]]]]]]]]]].
   unfold parse_v2, render_file2. rewrite Hh, run_obs_cont2.
   rewrite (body2_run rate (ep_y (f2_first f)) (ep_mo (f2_first f)) (ep_d (f2_first f)) (ep_h (f2_first f)) (ep_mi (f2_first f))
              (dec_value (ep_s7 (f2_first f)) 7) HY (f2_marker f) (f2_types f) Tne (f2_epochs f) (hdr_state2 f) cache0);
-    [| repeat split | exact Fe].
+    [| | exact Fe].
+  2:{ unfold inv2, inv2_meta, meta_str. cbn [hdr_state2 meta num_types types_all]. rewrite hmeta_first, hmeta_marker.
+      repeat split. apply last_inv_of_m. cbn [hdr_state2 meta]. apply (hmeta_last _ _ _ _ HY Xok). }
   destruct (add_rows_fields (file_rows2 rate f) (hdr_state2 f)) as [A1 [A2 [A3 _]]]. unfold file_rows2 in *.
   apply finish_v2_ext; [rewrite A1|rewrite A2|rewrite A3|]; try reflexivity.
   rewrite rows_add_rows. cbn [hdr_state2 rows final_state2]. rewrite List.app_nil_r. reflexivity.
@@ -221,7 +260,9 @@ Lemma rinex2_rows_l rate f : file2_ok f -> file_rows2 rate f <> [] ->
             Forall (fun col => List.length (snd col) = List.length (o_rows r)) (o_obs r).
 Proof.
   intros Ok Ne. rewrite (rinex2_file_roundtrip_l rate f Ok). unfold finish_v2.
-  change (meta_str "time_sys" (final_state2 rate f)) with (Some "GPS"). unfold final_state2. cbn [rows types_all meta pos].
+  assert (G : meta_str "time_sys" (final_state2 rate f) = Some "GPS")
+    by (unfold meta_str, final_state2; cbn [meta hdr_state2]; rewrite hmeta_gps; reflexivity).
+  rewrite G. unfold final_state2. cbn [rows types_all meta pos].
   rewrite rev_involutive. destruct (file_rows2 rate f) as [|r0 rs] eqn:E; [contradiction|].
   eexists. split; [reflexivity|]. cbn [o_rows o_obs]. split; [reflexivity|].
   apply Forall_forall. intros col Hc. apply in_map_iff in Hc. destruct Hc as [t [Et _]]. subst col. cbn [snd].
